@@ -20,7 +20,8 @@ def test_sharding():
 
 def test_lock_model_conformance():
     """The lock model of props.c19 (nothing locked at construction; exclusive; a waiter gets the lock when the holder
-    releases, or AlreadyLocked when the time-out fires first; death releases; the lock file is created on acquire) against
+    releases, or AlreadyLocked when the time-out fires first; death releases; the lock file is created on acquire; the lock
+    belongs to the file opened at acquire time, not to the path) against
     the real portalocker driven in two real processes."""
     import multiprocessing as mp
     import os
@@ -93,6 +94,25 @@ def test_lock_model_conformance():
         # 7. release is idempotent for the model's purposes
         assert ask(c3, "release") == "released"
         traces += 1
+        # 8. the lock belongs to the opened file, not to the path: while c3 holds it and c4 waits on the same file, removing
+        #    the path lets a newcomer lock a brand-new file at once; the waiter still gets the old one on release
+        assert ask(c3, "acquire") == "acquired"
+        p4, c4 = spawn(timeout=5)
+        c4.send("acquire")
+        time.sleep(0.3)
+        assert not c4.poll()
+        os.remove(path)
+        p5, c5 = spawn()
+        assert ask(c5, "acquire") == "acquired"           # new file, no exclusion against the holder of the old one
+        assert ask(c3, "release") == "released"
+        assert c4.recv() == "acquired"                    # waiter obtains the unlinked file's lock: two holders now
+        traces += 1
+        for c in (c4, c5):
+            assert ask(c, "release") == "released"
+            c.send("quit")
+            c.recv()
+        for pp in (p4, p5):
+            pp.join(5)
         for c in (c2, c3):
             c.send("quit")
             c.recv()
@@ -100,7 +120,7 @@ def test_lock_model_conformance():
             p.join(5)
     finally:
         shutil.rmtree(d, ignore_errors=True)
-    assert traces == 7
+    assert traces == 8
     return traces
 
 
